@@ -425,7 +425,13 @@ func registerModels(e *Engine) {
 	registerTimeModels(e)
 	registerFmtModels(e)
 	registerMiscModels(e)
+	for _, f := range extraModels {
+		f(e)
+	}
 }
+
+// extraModels lets models_<ID>.go files add models without touching this file.
+var extraModels []func(e *Engine)
 
 func containsSym(v Value) bool {
 	switch v := v.(type) {
@@ -838,7 +844,8 @@ func registerTimeModels(e *Engine) {
 	}
 	e.reg("time.now", now)
 	e.reg("time.runtimeNow", now)
-	e.reg("time.runtimeNano", func(fr *frame, a []Value) Value { return uint64(e.clock) })
+	e.reg("time.runtimeIsBubbled", func(fr *frame, a []Value) Value { return false })
+	e.reg("time.runtimeNano",func(fr *frame, a []Value) Value { return uint64(e.clock) })
 	e.reg("time.Sleep", func(fr *frame, a []Value) Value {
 		d := int64(e.concretizeV(a[0], fr))
 		if d > 0 {
